@@ -19,6 +19,9 @@ PROPS["C08"] = {
     "assumptions": ["source-level instrumentation preserves semantics (repo test-suite passes on the instrumented copy)",
                     "constant-time at the source level only: compiler and micro-architecture are out of scope"],
     "units": [{
+        "pkg": "curve", "configs": ["default"],
+        "tests": {"TestC08GuardPages": LIST(), "TestC08GuardPagesOracleSelfTest": LIST()},
+    }, {
         "pkg": "internal/zzcttest", "ct": True, "configs": {"quick": ["default", "purego", "force32bit"], "thorough": ["default", "noavx2", "purego", "force32bit"]},
         "tests": {
             "TestC08SourceTrace": T(12000, 600000),
